@@ -30,7 +30,7 @@ PROPERTIES: dict[str, dict] = {
         "assumptions": COMMON_ASSUMPTIONS,
     },
     "C03": {
-        "rules": ["R-CODEC", "R-KEYS", "R-ELEMTABLE", "R-GRAM3", "R-SHAPE", "R-ZERO", "R-BLISS", "R-FLOW-CANON", "R-FLOW-SERIAL", "R-BIJ", "R-REBUILD", "R-EXPRESS", "R-ATTRREAD", "R-GLOBAL"],
+        "rules": ["R-CODEC", "R-KEYS", "R-ELEMTABLE", "R-GRAM3", "R-SHAPE", "R-ZERO", "R-BLISS", "R-FLOW-CANON", "R-FLOW-SERIAL", "R-BIJ", "R-REBUILD", "R-EXPRESS", "R-ATTRREAD", "R-REJECT", "R-GLOBAL"],
         "thorough_rules": ["R-LIBSRC"],
         "technique": "codec-agreement rules + language inclusion (emitted ⊆ grammar) by automata + the C01 flow proof for the fixed-point half",
         "explanation": "Serializer/parser agreement (offsets, key tables, numbering by atomic number, stable sort), emitted strings are sentences of the "
@@ -92,7 +92,7 @@ PROPERTIES: dict[str, dict] = {
         "assumptions": COMMON_ASSUMPTIONS,
     },
     "C10": {
-        "rules": ["R-GRAM3", "R-LEX", "R-GRAMREC", "R-LISTENERS", "R-HANDLERS", "R-ORDERING", "R-DUPATTR", "R-ESCAPE", "R-ALIAS", "R-KEYS", "R-ELEMTABLE", "R-CODEC", "R-GRAPHBUILD", "R-GLOBAL"],
+        "rules": ["R-GRAM3", "R-LEX", "R-GRAMREC", "R-LISTENERS", "R-HANDLERS", "R-ORDERING", "R-DUPATTR", "R-ESCAPE", "R-REJECT", "R-ALIAS", "R-KEYS", "R-ELEMTABLE", "R-CODEC", "R-GRAPHBUILD", "R-GLOBAL"],
         "thorough_rules": ["R-GENCODE"],
         "technique": "language equivalence EBNF = G4 = generated ATN by automata + typestate/CFG rules on the parser wiring",
         "explanation": "The recogniser the parser runs is the published grammar (decision procedure over all strings: three-way language equivalence "
